@@ -53,7 +53,12 @@ where
         loop {
             match self.records.next() {
                 Some(r) => {
-                    if let (Some(start), Some(end)) = (r.alignment_start(), r.alignment_end()) {
+                    if let (Some(id), Some(start), Some(end)) = (
+                        r.reference_sequence_id(),
+                        r.alignment_start(),
+                        r.alignment_end(),
+                    ) && id == self.reference_sequence_id
+                    {
                         let alignment_interval = (start..=end).into();
 
                         if self.interval.intersects(alignment_interval) {
@@ -114,9 +119,18 @@ where
         Err(e) => return Some(Err(e)),
     };
 
+    // An index record describes a single slice. Only that slice is read; otherwise, a container
+    // with more than one index record, e.g., one with multiple slices or a multi-reference slice,
+    // would return its records more than once.
+    let landmarks = container.header().landmarks();
+
     let records = container
         .slices()
-        .map(|result| {
+        .zip(landmarks)
+        .filter(|(_, landmark)| {
+            u64::try_from(**landmark).is_ok_and(|n| n == index_record.landmark())
+        })
+        .map(|(result, _)| {
             let slice = result?;
 
             let (core_data_src, external_data_srcs) = slice.decode_blocks()?;
